@@ -3,6 +3,8 @@
 
 use crate::emfh::*;
 use crate::engine::*;
+use metrique_writer_core::format::Format as _;
+use metrique_writer_core::sample::SampledFormat as _;
 use crate::model::*;
 use crate::{vensure, vfail};
 use proptest::prelude::*;
@@ -198,24 +200,76 @@ pub const RULE: &str = "arbitrary entry (timestamp/config/value call sequences, 
 pub struct SeqCase {
     pub cfg: EmfCfg,
     pub items: Vec<(GenEntry, Option<crate::iofault::WScript>, Sampling)>,
+    /// the long-lived formatter is a SampledEmf (state left by sampled calls stays in it)
+    #[serde(default)]
+    pub sampled_formatter: bool,
+}
+
+/// the long-lived formatter of a sequence
+enum SeqFmt {
+    Plain(metrique_writer_format_emf::Emf),
+    Sampled(metrique_writer_format_emf::SampledEmf<ScriptRng>),
+}
+impl SeqFmt {
+    fn run(&mut self, entry: &GenEntry, sampling: &Sampling, out: &mut impl std::io::Write) -> Decision {
+        match self {
+            SeqFmt::Plain(emf) => format_once(emf, entry, sampling, out),
+            SeqFmt::Sampled(s) => {
+                let p = entry.prepare();
+                match sampling {
+                    Sampling::None | Sampling::SampledNoRate => decision_of(s.format(&p, out)),
+                    Sampling::Rate { rate_bits, .. } => decision_of(s.format_with_sample_rate(&p, out, f32::from_bits(*rate_bits))),
+                }
+            }
+        }
+    }
+    /// the same entry through a copy of the formatter in its CURRENT state into a perfect writer
+    /// (SampledEmf is not Clone: no twin there)
+    fn clean_twin_output(&self, entry: &GenEntry, sampling: &Sampling) -> Option<(Decision, Vec<u8>)> {
+        let mut out = vec![];
+        match self {
+            SeqFmt::Plain(emf) => {
+                let d = format_once(&mut emf.clone(), entry, sampling, &mut out);
+                Some((d, out))
+            }
+            SeqFmt::Sampled(_) => None,
+        }
+    }
 }
 
 pub fn check_seq(case: &SeqCase) -> CaseResult {
     use crate::iofault::{ScriptedWriter, WStep};
-    let mut emf = no_panic("emf-build", || case.cfg.build())?;
+    let emf = no_panic("emf-build", || case.cfg.build())?;
+    let mut emf = if case.sampled_formatter {
+        SeqFmt::Sampled(emf.with_sampling_and_rng(ScriptRng::new(vec![0x9e37_79b9_7f4a_7c15, 3, u64::MAX, 0])))
+    } else {
+        SeqFmt::Plain(emf)
+    };
     let mut classes: Classes = vec![];
+    if case.sampled_formatter {
+        classes.push("long-lived-sampled-formatter");
+    }
     let mut prev_failed = false;
     for (i, (entry, script, sampling)) in case.items.iter().enumerate() {
+        // what this call would write into a perfect writer, from the formatter's present state
+        // (only needed when the real writer accepts in pieces; the sampled formatter's rng is
+        // cloned with it, so the weight is the same)
+        // (entries without a timestamp of their own take the clock: no byte comparison for them)
+        let own_timestamp = entry.ops.iter().any(|o| matches!(o, Op::Timestamp { .. }));
+        let clean = match script {
+            Some(_) if own_timestamp => no_panic("emf-format-clean-twin", || emf.clean_twin_output(entry, sampling))?,
+            _ => None,
+        };
         let (dec, bytes, faulted) = match script {
             None => {
                 let mut out = vec![];
-                let d = no_panic("emf-format", || format_once(&mut emf, entry, sampling, &mut out))?;
+                let d = no_panic("emf-format", || emf.run(entry, sampling, &mut out))?;
                 (d, out, false)
             }
             Some(sc) => {
                 let w = ScriptedWriter::new(sc.clone());
                 let mut wr = w.clone();
-                let d = no_panic("emf-format", || format_once(&mut emf, entry, sampling, &mut wr))?;
+                let d = no_panic("emf-format", || emf.run(entry, sampling, &mut wr))?;
                 let faulted = w.calls().iter().any(|c| matches!(c.step, WStep::Zero | WStep::Hard(_)));
                 (d, w.received(), faulted)
             }
@@ -229,6 +283,19 @@ pub fn check_seq(case: &SeqCase) -> CaseResult {
                         "item {i} (previous call failed: {prev_failed}): format returned Ok but the bytes are not complete valid EMF records: {e}\noutput={:?}",
                         String::from_utf8_lossy(&bytes[..bytes.len().min(2000)])
                     );
+                }
+                // short writes / retries must not change a single byte: the lines equal those of a
+                // clean write from the same formatter state
+                if let Some((cd, cbytes)) = &clean {
+                    if *cd == Decision::Ok && lines_multiset(cbytes) != lines_multiset(&bytes) {
+                        vfail!(
+                            "io:torn-or-duplicated-output",
+                            "item {i}: format returned Ok over a writer that accepts in pieces, but the bytes differ from a clean write of the same call\npieces={:?}\nclean ={:?}",
+                            String::from_utf8_lossy(&bytes[..bytes.len().min(1500)]),
+                            String::from_utf8_lossy(&cbytes[..cbytes.len().min(1500)])
+                        );
+                    }
+                    classes.push("ok-over-piecewise-writer-compared-with-clean-write");
                 }
                 if prev_failed {
                     classes.push("accepted-after-failed-call");
@@ -285,11 +352,11 @@ pub fn run(ctx: &mut Ctx) {
     ctx.explore(
         SubCfg::new(
             "emf-valid-json-sequence",
-            "2-8 arbitrary entries formatted by ONE formatter, each into a Vec or a scripted writer (short writes / Interrupted / Ok(0) / hard errors), with or without sampling: every call that returns Ok must have produced complete valid framed records, a validation error zero bytes - whatever the previous calls did. Non-trivial = an accepted entry directly after a call that failed (validation or I/O)",
+            "2-8 arbitrary entries formatted by ONE formatter (an Emf, or - 35% - a long-lived SampledEmf), each into a Vec or a scripted writer (short writes incl. first-slice-only / Interrupted / Ok(0) / hard errors), with or without sampling: every call that returns Ok must have produced complete valid framed records, a validation error zero bytes - whatever the previous calls did; an Ok over a piecewise writer must equal, line for line, a clean write of the same call from a copy of the formatter. Non-trivial = an accepted entry directly after a call that failed (validation or I/O)",
             ctx.tier.pick(30_000, 1_000_000),
         )
         .threads(threads)
-        .mandatory(&["accepted-after-failed-call", "io-failed", "validation"]),
+        .mandatory(&["accepted-after-failed-call", "io-failed", "validation", "long-lived-sampled-formatter", "ok-over-piecewise-writer-compared-with-clean-write"]),
         || {
             (
                 arb_cfg_any(),
@@ -297,8 +364,9 @@ pub fn run(ctx: &mut Ctx) {
                     (arb_entry(), prop::option::weighted(0.35, crate::iofault::arb_wscript()), arb_sampling()),
                     2..8,
                 ),
+                prop::bool::weighted(0.35),
             )
-                .prop_map(|(cfg, items)| SeqCase { cfg, items })
+                .prop_map(|(cfg, items, sampled_formatter)| SeqCase { cfg, items, sampled_formatter })
         },
         check_seq,
     );
